@@ -137,6 +137,18 @@ static int udpSocket(std::uint16_t &port)
   port = ntohs(a.sin_port);
   return fd;
 }
+static int udpSocketAt(const char *ip, std::uint16_t port)
+{
+  int fd = ::socket(AF_INET, SOCK_DGRAM | SOCK_NONBLOCK, 0);
+  int big = 4 * 1024 * 1024;
+  ::setsockopt(fd, SOL_SOCKET, SO_RCVBUF, &big, sizeof(big));
+  sockaddr_in a{};
+  a.sin_family = AF_INET;
+  ::inet_pton(AF_INET, ip, &a.sin_addr);
+  a.sin_port = htons(port);
+  if (::bind(fd, reinterpret_cast<sockaddr *>(&a), sizeof(a)) != 0) { ::close(fd); return -1; }
+  return fd;
+}
 static void rawSend(int fd, std::uint16_t port, const std::string &data)
 {
   sockaddr_in a{};
@@ -298,7 +310,28 @@ static std::string runCase(const std::string &cfgs, const std::vector<std::strin
   C.barrierPeerPort[1] = bport2;
   std::vector<int> pfd(np);
   std::vector<std::uint16_t> pport(np);
-  for (int i = 0; i < np; ++i)
+  std::vector<std::string> pip(np, "127.0.0.1");
+  int firstPlain = 0;
+  if (cf.size() > 7 && cf[7] == "1" && np >= 2)
+  {
+    // two peers whose "address" + "port" texts coincide when written one after the other:
+    // 127.0.0.1:1PPPP and 127.0.0.11:PPPP (different hosts of the loopback net, different ports)
+    for (std::uint16_t P = 5003; P < 5900 && firstPlain == 0; P = static_cast<std::uint16_t>(P + 37))
+    {
+      int f0 = udpSocketAt("127.0.0.1", static_cast<std::uint16_t>(10000 + P));
+      int f1 = f0 >= 0 ? udpSocketAt("127.0.0.11", P) : -1;
+      if (f0 >= 0 && f1 >= 0)
+      {
+        pfd[0] = f0; pport[0] = static_cast<std::uint16_t>(10000 + P);
+        pfd[1] = f1; pport[1] = P; pip[1] = "127.0.0.11";
+        C.peerByPort[pport[0]] = 0;
+        C.peerByPort[pport[1]] = 1;
+        firstPlain = 2;
+      }
+      else { if (f0 >= 0) ::close(f0); if (f1 >= 0) ::close(f1); }
+    }
+  }
+  for (int i = firstPlain; i < np; ++i)
   {
     pfd[i] = udpSocket(pport[i]);
     C.peerByPort[pport[i]] = i;
@@ -387,11 +420,11 @@ static std::string runCase(const std::string &cfgs, const std::vector<std::strin
     }
     else if (k == "c")
     {
-      (void)tx.connect("127.0.0.1", pport[std::stoi(p[1])], TlsMode::None);
+      (void)tx.connect(pip[std::stoi(p[1])], pport[std::stoi(p[1])], TlsMode::None);
     }
     else if (k == "v")
     {
-      (void)tx.connectViaListener(static_cast<ListenerId>(std::stoi(p[1]) + C.lidOff), "127.0.0.1", pport[std::stoi(p[2])]);
+      (void)tx.connectViaListener(static_cast<ListenerId>(std::stoi(p[1]) + C.lidOff), pip[std::stoi(p[2])], pport[std::stoi(p[2])]);
     }
     else if (k == "s")
     {
